@@ -349,7 +349,7 @@ package keeper
 //@ ensures [C09,C19] no-other-instalment-appears: forall(x, uint64, forall(t, Time, VestingQueue[x][t].present && !old(VestingQueue[x][t]).present ==> x == auction.Id && result == nil && exists(j, int, 0 <= j && j < len(auction.VestingSchedules) && auction.VestingSchedules[j].ReleaseTime == t)))
 //@ ensures [C19] existing-instalments-untouched: forall(x, uint64, forall(t, Time, old(VestingQueue[x][t]).present ==> VestingQueue[x][t] == old(VestingQueue[x][t])))
 //@ ensures [C19,C08] only-the-status-of-this-auction-changes: sameExcept(auction, old(auction), Status) && forall(x, uint64, x != auction.Id ==> Auction[x] == old(Auction[x]))
-//@ ensures [C08,C16] record-written-with-the-new-status: result == nil ==> Auction[auction.Id].present && Auction[auction.Id].Status == auction.Status && Auction[auction.Id].Kind == auction.Kind && sameExcept(Auction[auction.Id], auction, Kind)
+//@ ensures [C08,C16] record-written-with-the-new-status: result == nil ==> Auction[auction.Id].present && Auction[auction.Id].Status == auction.Status && Auction[auction.Id].Kind == auction.Kind && sameExcept(Auction[auction.Id], auction)
 //@ ensures [C02,C19] no-other-balance-moves: let(pd, auction.PayingCoinDenom, forall(ad, Addr, forall(d, string, d != pd || (ad != payEsc(auction.Id) && ad != vestEsc(auction.Id) && ad != addrOf(auction.Auctioneer)) ==> bal(ad, d) == old(bal(ad, d)))))
 //@ ensures [C07] fails-only-if-the-bank-refuses: ExternOK ==> result == nil
 //@ loop 0 let R = reserveCoin.Amount
@@ -382,9 +382,10 @@ package keeper
 //@ ensures [C09,C16] due-instalments-are-released-others-untouched: result == nil ==> let(dom, old(domOf(VestingQueue, auction.Id)), forall(j, int, 0 <= j && j < ilistN(dom) ==> let(t, ilistKey(dom, j), let(q, old(VestingQueue[auction.Id][t]), ite(t <= BlockTime && !q.Released, VestingQueue[auction.Id][t].Released && sameExcept(VestingQueue[auction.Id][t], q, Released), VestingQueue[auction.Id][t] == q)))))
 //@ ensures [C09,C02] auctioneer-is-paid-exactly-the-due-instalments: result == nil ==> let(pd, auction.PayingCoinDenom, let(dom, old(domOf(VestingQueue, auction.Id)), bal(addrOf(auction.Auctioneer), pd) == old(bal(addrOf(auction.Auctioneer), pd)) + sum(j, 0, ilistN(dom), ite(ilistKey(dom, j) <= BlockTime && !old(VestingQueue[auction.Id][ilistKey(dom, j)]).Released && old(VestingQueue[auction.Id][ilistKey(dom, j)]).PayingCoin.Denom == pd, old(VestingQueue[auction.Id][ilistKey(dom, j)]).PayingCoin.Amount, 0))))
 //@ ensures [C09,C19] no-instalment-created-or-removed: forall(x, uint64, forall(t, Time, VestingQueue[x][t].present == old(VestingQueue[x][t]).present && (x != auction.Id ==> VestingQueue[x][t] == old(VestingQueue[x][t]))))
+//@ ensures [C09,C16] only-the-released-flag-changes: forall(t, Time, old(VestingQueue[auction.Id][t]).present ==> sameExcept(VestingQueue[auction.Id][t], old(VestingQueue[auction.Id][t]), Released))
 //@ ensures [C08,C09] finishes-exactly-when-the-last-instalment-is-released-now: result == nil ==> let(dom, old(domOf(VestingQueue, auction.Id)), let(n, ilistN(dom), auction.Status == ite(n > 0 && ilistKey(dom, n - 1) <= BlockTime && !old(VestingQueue[auction.Id][ilistKey(dom, n - 1)]).Released, AuctionStatusFinished, old(auction.Status))))
 //@ ensures [C19,C08] only-the-status-of-this-auction-changes: sameExcept(auction, old(auction), Status) && forall(x, uint64, x != auction.Id ==> Auction[x] == old(Auction[x]))
-//@ ensures [C08,C16] record-follows-the-object: result == nil && auction.Status != old(auction.Status) ==> Auction[auction.Id].present && Auction[auction.Id].Status == AuctionStatusFinished && sameExcept(Auction[auction.Id], auction, Kind)
+//@ ensures [C08,C16] record-follows-the-object: result == nil && auction.Status != old(auction.Status) ==> Auction[auction.Id].present && Auction[auction.Id].Status == AuctionStatusFinished && sameExcept(Auction[auction.Id], auction)
 //@ ensures [C08] record-untouched-otherwise: auction.Status == old(auction.Status) ==> Auction == old(Auction)
 //@ loop 0 let DOM = domOf(VestingQueue, auction.Id)
 //@ loop 0 let VQ0 = VestingQueue
@@ -394,8 +395,9 @@ package keeper
 //@ loop 0 invariant forall(j, int, 0 <= j && j < len(vestingQueues) ==> let(t, ilistKey(DOM, j), let(q, old(VestingQueue[auction.Id][t]), ite(j < idx && t <= BlockTime && !q.Released, VestingQueue[auction.Id][t].Released && sameExcept(VestingQueue[auction.Id][t], q, Released), VestingQueue[auction.Id][t] == q))))
 //@ loop 0 invariant let(pd, auction.PayingCoinDenom, bal(addrOf(auction.Auctioneer), pd) == old(bal(addrOf(auction.Auctioneer), pd)) + sum(j, 0, idx, ite(ilistKey(DOM, j) <= BlockTime && !old(VestingQueue[auction.Id][ilistKey(DOM, j)]).Released && old(VestingQueue[auction.Id][ilistKey(DOM, j)]).PayingCoin.Denom == pd, old(VestingQueue[auction.Id][ilistKey(DOM, j)]).PayingCoin.Amount, 0)))
 //@ loop 0 invariant sameExcept(auction, old(auction), Status) && forall(x, uint64, x != auction.Id ==> Auction[x] == old(Auction[x]))
+//@ loop 0 invariant forall(t, Time, old(VestingQueue[auction.Id][t]).present ==> sameExcept(VestingQueue[auction.Id][t], old(VestingQueue[auction.Id][t]), Released))
 //@ loop 0 invariant auction.Status == ite(idx == len(vestingQueues) && idx > 0 && ilistKey(DOM, idx - 1) <= BlockTime && !old(VestingQueue[auction.Id][ilistKey(DOM, idx - 1)]).Released, AuctionStatusFinished, old(auction.Status))
-//@ loop 0 invariant ite(auction.Status != old(auction.Status), Auction[auction.Id].present && Auction[auction.Id].Status == AuctionStatusFinished && sameExcept(Auction[auction.Id], auction, Kind), Auction == old(Auction))
+//@ loop 0 invariant ite(auction.Status != old(auction.Status), Auction[auction.Id].present && Auction[auction.Id].Status == AuctionStatusFinished && sameExcept(Auction[auction.Id], auction), Auction == old(Auction))
 
 // ExtendRound (C13): appends exactly one end time, one configured period (in days) after the last one.
 //@ func (Keeper).ExtendRound
@@ -403,7 +405,7 @@ package keeper
 //@ modifies Auction, SetT, *ba
 //@ ensures [C13] appends-last-end-plus-period: result == nil ==> len(ba.EndTimes) == old(len(ba.EndTimes)) + 1 && ba.EndTimes[len(ba.EndTimes)-1] == addDays(old(ba.EndTimes[len(ba.EndTimes)-1]), Params.ExtendedPeriod) && forall(j, int, 0 <= j && j < old(len(ba.EndTimes)) ==> ba.EndTimes[j] == old(ba.EndTimes[j]))
 //@ ensures [C13,C19] nothing-else-changes: sameExcept(ba, old(ba), EndTimes) && forall(x, uint64, x != ba.Id ==> Auction[x] == old(Auction[x]))
-//@ ensures [C13,C16] record-written: result == nil ==> Auction[ba.Id].present && Auction[ba.Id].Kind == KindBatch && sameExcept(Auction[ba.Id], ba, Kind, RemainingSellingCoin)
+//@ ensures [C13,C16] record-written: result == nil ==> Auction[ba.Id].present && Auction[ba.Id].Kind == KindBatch && sameExcept(Auction[ba.Id], ba)
 //@ ensures [C07] never-fails: result == nil
 
 // CalculateFixedPriceAllocation (C05, C06): every stored bid is allocated its full converted amount.
@@ -458,7 +460,7 @@ package keeper
 //@ requires InvBidsWF() && 0 <= BidSeq[auction.Id] && dense1(domOf(Bid, auction.Id), BidSeq[auction.Id])
 //@ requires forall(t, Time, !VestingQueue[auction.Id][t].present)
 //@ modifies Auction, VestingQueue, Bal, HookN, HookT, SetT, XferN, XferT, *auction
-//@ ensures [C08] settles-to-vesting-or-finished: result == nil ==> auction.Status == ite(len(auction.VestingSchedules) == 0, AuctionStatusFinished, AuctionStatusVesting) && Auction[auction.Id].present && Auction[auction.Id].Status == auction.Status && sameExcept(Auction[auction.Id], auction, Kind)
+//@ ensures [C08] settles-to-vesting-or-finished: result == nil ==> auction.Status == ite(len(auction.VestingSchedules) == 0, AuctionStatusFinished, AuctionStatusVesting) && Auction[auction.Id].present && Auction[auction.Id].Status == auction.Status && sameExcept(Auction[auction.Id], auction)
 //@ ensures [C01,C02] escrows-drained: result == nil ==> bal(sellEsc(auction.Id), auction.SellingCoin.Denom) == 0 && bal(payEsc(auction.Id), auction.PayingCoinDenom) == 0
 //@ ensures [C02,C05] each-bidder-receives-the-sum-of-their-bids: result == nil ==> forall(w, string, sumSellBy(auction.Id, w, auction.PayingCoinDenom) > 0 ==> bal(addrOf(w), auction.SellingCoin.Denom) >= old(bal(addrOf(w), auction.SellingCoin.Denom)) + sumSellBy(auction.Id, w, auction.PayingCoinDenom))
 //@ ensures [C19,C08] only-the-status-of-this-auction-changes: sameExcept(auction, old(auction), Status) && forall(x, uint64, x != auction.Id ==> Auction[x] == old(Auction[x]))
@@ -485,14 +487,14 @@ package keeper
 //@ ensures [C09] own-instalments-are-well-formed: forall(t, Time, let(q, VestingQueue[auction.Id][t], q.present ==> result == nil && q.AuctionId == auction.Id && q.ReleaseTime == t && q.PayingCoin.Amount >= 0 && validDenom(q.PayingCoin.Denom)))
 //@ ensures [C11,C19,C16] only-matched-flags-of-this-auction-change: forall(a, uint64, forall(i, uint64, Bid[a][i].present == old(Bid[a][i]).present && ite(a == auction.Id, sameExcept(Bid[a][i], old(Bid[a][i]), IsMatched), Bid[a][i] == old(Bid[a][i]))))
 //@ ensures [C19,C16] only-status-end-times-and-matched-price-change: sameExcept(auction, old(auction), Status, EndTimes, MatchedPrice)
-//@ ensures [C08,C16] record-follows-the-object: result == nil ==> Auction[auction.Id].present && Auction[auction.Id].Status == auction.Status && sameExcept(Auction[auction.Id], auction, Kind, RemainingSellingCoin)
+//@ ensures [C08,C16] record-follows-the-object: result == nil ==> Auction[auction.Id].present && Auction[auction.Id].Status == auction.Status && sameExcept(Auction[auction.Id], auction)
 
 // Per-status block processing (C08, C07).
 //@ func (Keeper).ExecuteStandByStatus
 //@ requires auctionFieldsWF(auction, auction.Id) && auction.Status == AuctionStatusStandBy && auction.Id < 18446744073709551616
 //@ modifies Auction, SetT, *auction
 //@ ensures [C08] opens-exactly-when-the-start-time-is-reached: auction.Status == ite(auction.StartTime <= BlockTime, AuctionStatusStarted, AuctionStatusStandBy)
-//@ ensures [C08,C16] record-follows-the-object: auction.Status == AuctionStatusStarted ==> Auction[auction.Id].present && Auction[auction.Id].Status == AuctionStatusStarted && sameExcept(Auction[auction.Id], auction, Kind)
+//@ ensures [C08,C16] record-follows-the-object: auction.Status == AuctionStatusStarted ==> Auction[auction.Id].present && Auction[auction.Id].Status == AuctionStatusStarted && sameExcept(Auction[auction.Id], auction)
 //@ ensures [C08,C19] nothing-else-changes: sameExcept(auction, old(auction), Status) && forall(x, uint64, x != auction.Id ==> Auction[x] == old(Auction[x])) && (auction.Status == AuctionStatusStandBy ==> Auction == old(Auction))
 //@ ensures [C07] never-fails: result == nil
 
@@ -509,7 +511,7 @@ package keeper
 //@ ensures [C09] own-instalments-are-well-formed: forall(t, Time, let(q, VestingQueue[auction.Id][t], q.present ==> result == nil && q.AuctionId == auction.Id && q.ReleaseTime == t && q.PayingCoin.Amount >= 0 && validDenom(q.PayingCoin.Denom)))
 //@ ensures [C11,C19,C16] only-matched-flags-of-this-auction-change: forall(a, uint64, forall(i, uint64, Bid[a][i].present == old(Bid[a][i]).present && ite(a == auction.Id, sameExcept(Bid[a][i], old(Bid[a][i]), IsMatched), Bid[a][i] == old(Bid[a][i]))))
 //@ ensures [C13] matched-length-stays-non-negative: result == nil ==> 0 <= MatchedBidsLen[auction.Id]
-//@ ensures [C08,C16] record-follows-the-object: result == nil && (auction.Status != AuctionStatusStarted || len(auction.EndTimes) != old(len(auction.EndTimes))) ==> Auction[auction.Id].present && Auction[auction.Id].Status == auction.Status && sameExcept(Auction[auction.Id], auction, Kind, RemainingSellingCoin)
+//@ ensures [C08,C16] record-follows-the-object: result == nil && (auction.Status != AuctionStatusStarted || len(auction.EndTimes) != old(len(auction.EndTimes))) ==> Auction[auction.Id].present && Auction[auction.Id].Status == auction.Status && sameExcept(Auction[auction.Id], auction)
 
 //@ func (Keeper).ExecuteVestingStatus
 //@ requires auctionFieldsWF(auction, auction.Id) && auction.Id < 18446744073709551616 && auction.Status == AuctionStatusVesting
@@ -517,6 +519,10 @@ package keeper
 //@ modifies Auction, VestingQueue, Bal, SetT, XferN, XferT, *auction
 //@ ensures [C08,C09] finishes-exactly-when-the-last-instalment-is-released-now: result == nil ==> let(dom, old(domOf(VestingQueue, auction.Id)), let(n, ilistN(dom), auction.Status == ite(n > 0 && ilistKey(dom, n - 1) <= BlockTime && !old(VestingQueue[auction.Id][ilistKey(dom, n - 1)]).Released, AuctionStatusFinished, AuctionStatusVesting)))
 //@ ensures [C19] other-auctions-untouched: forall(x, uint64, x != auction.Id ==> Auction[x] == old(Auction[x])) && sameExcept(auction, old(auction), Status)
+//@ ensures [C08,C16] record-follows-the-object: result == nil && auction.Status != AuctionStatusVesting ==> Auction[auction.Id].present && Auction[auction.Id].Status == AuctionStatusFinished && sameExcept(Auction[auction.Id], auction)
+//@ ensures [C08] record-untouched-otherwise: auction.Status == AuctionStatusVesting ==> Auction == old(Auction)
+//@ ensures [C09,C19] no-instalment-created-or-removed: forall(x, uint64, forall(t, Time, VestingQueue[x][t].present == old(VestingQueue[x][t]).present && (x != auction.Id ==> VestingQueue[x][t] == old(VestingQueue[x][t]))))
+//@ ensures [C09] own-instalments-stay-well-formed: forall(t, Time, let(q, VestingQueue[auction.Id][t], q.present ==> q.AuctionId == auction.Id && q.ReleaseTime == t && q.PayingCoin.Amount >= 0 && validDenom(q.PayingCoin.Denom)))
 
 // Auctions: all stored auctions in ascending id order.
 //@ func (Keeper).Auctions
@@ -529,13 +535,13 @@ package keeper
 //@ func (Keeper).BeginBlocker
 //@ requires Inv() && InvVQ() && InvMatched()
 //@ modifies Auction, Bid, MatchedBidsLen, VestingQueue, Bal, HookN, HookT, SetT, XferN, XferT
-//@ ensures [C08] status-moves-only-forward: forall(x, uint64, old(Auction[x]).present ==> Auction[x].present && forward(old(Auction[x]).Status, Auction[x].Status))
-//@ ensures [C08,C12] no-auction-appears-or-disappears: domOf(Auction) == old(domOf(Auction))
-//@ ensures [C08] waiting-auctions-open-exactly-at-their-start-time: result == nil ==> forall(x, uint64, old(Auction[x]).present && old(Auction[x]).Status == AuctionStatusStandBy ==> Auction[x].Status == ite(old(Auction[x]).StartTime <= BlockTime, AuctionStatusStarted, AuctionStatusStandBy))
-//@ ensures [C08] open-auctions-are-untouched-before-their-end-time: result == nil ==> forall(x, uint64, old(Auction[x]).present && old(Auction[x]).Status == AuctionStatusStarted && old(Auction[x]).EndTimes[len(old(Auction[x]).EndTimes)-1] > BlockTime ==> Auction[x] == old(Auction[x]))
-//@ ensures [C08,C13] open-auctions-settle-or-extend-at-their-end-time: result == nil ==> forall(x, uint64, old(Auction[x]).present && old(Auction[x]).Status == AuctionStatusStarted && old(Auction[x]).EndTimes[len(old(Auction[x]).EndTimes)-1] <= BlockTime ==> (Auction[x].Status == ite(len(Auction[x].VestingSchedules) == 0, AuctionStatusFinished, AuctionStatusVesting)) || (Auction[x].Kind == KindBatch && Auction[x].Status == AuctionStatusStarted && len(Auction[x].EndTimes) == len(old(Auction[x]).EndTimes) + 1))
-//@ ensures [C07,C08,C12] finished-and-cancelled-are-permanent-and-harmless: forall(x, uint64, old(Auction[x]).present && (old(Auction[x]).Status == AuctionStatusFinished || old(Auction[x]).Status == AuctionStatusCancelled) ==> Auction[x] == old(Auction[x]))
-//@ ensures [C19] agreed-terms-never-change: forall(x, uint64, old(Auction[x]).present ==> sameExcept(Auction[x], old(Auction[x]), Status, EndTimes, MatchedPrice))
+//@ ensures [C08] status-moves-only-forward: result == nil ==> forall(x, uint64, old(Auction[x]).present ==> Auction[x].present && forward(old(Auction[x]).Status, Auction[x].Status))
+//@ ensures [C08,C12] no-auction-appears-or-disappears: result == nil ==> domOf(Auction) == old(domOf(Auction))
+//@ ensures [C08] waiting-auctions-open-exactly-at-their-start-time: result == nil ==> let(dom, old(domOf(Auction)), forall(j, int, 0 <= j && j < ilistN(dom) ==> let(x, ilistKey(dom, j), old(Auction[x]).Status == AuctionStatusStandBy ==> Auction[x].Status == ite(old(Auction[x]).StartTime <= BlockTime, AuctionStatusStarted, AuctionStatusStandBy))))
+//@ ensures [C08] open-auctions-are-untouched-before-their-end-time: result == nil ==> let(dom, old(domOf(Auction)), forall(j, int, 0 <= j && j < ilistN(dom) ==> let(x, ilistKey(dom, j), old(Auction[x]).Status == AuctionStatusStarted && old(Auction[x]).EndTimes[len(old(Auction[x]).EndTimes)-1] > BlockTime ==> Auction[x] == old(Auction[x]))))
+//@ ensures [C08,C13] open-auctions-settle-or-extend-at-their-end-time: result == nil ==> let(dom, old(domOf(Auction)), forall(j, int, 0 <= j && j < ilistN(dom) ==> let(x, ilistKey(dom, j), old(Auction[x]).Status == AuctionStatusStarted && old(Auction[x]).EndTimes[len(old(Auction[x]).EndTimes)-1] <= BlockTime ==> (Auction[x].Status == ite(len(Auction[x].VestingSchedules) == 0, AuctionStatusFinished, AuctionStatusVesting)) || (Auction[x].Kind == KindBatch && Auction[x].Status == AuctionStatusStarted && len(Auction[x].EndTimes) == len(old(Auction[x]).EndTimes) + 1))))
+//@ ensures [C07,C08,C12] finished-and-cancelled-are-permanent-and-harmless: result == nil ==> let(dom, old(domOf(Auction)), forall(j, int, 0 <= j && j < ilistN(dom) ==> let(x, ilistKey(dom, j), old(Auction[x]).Status == AuctionStatusFinished || old(Auction[x]).Status == AuctionStatusCancelled ==> Auction[x] == old(Auction[x]))))
+//@ ensures [C19] agreed-terms-never-change: result == nil ==> forall(x, uint64, old(Auction[x]).present ==> sameExcept(Auction[x], old(Auction[x]), Status, EndTimes, MatchedPrice))
 //@ loop 0 let DOM = domOf(Auction)
 //@ loop 0 invariant 0 <= idx && idx <= len(auctions) && len(auctions) == ilistN(DOM) && domOf(Auction) == DOM && DOM == old(domOf(Auction)) && Params.present
 //@ loop 0 invariant forall(j, int, idx <= j && j < len(auctions) ==> auctions[j] == old(Auction[ilistKey(DOM, j)]) && Auction[ilistKey(DOM, j)] == old(Auction[ilistKey(DOM, j)]))
